@@ -22,6 +22,7 @@ QMAX == <<255, 255, 255, 255>>
 QIds == { Q(0), Q(63), Q(64), Q(16383), Q(16384), <<255,255,255,63>>, <<0,0,0,64>>, QMAX }
 Rep(c, n) == [i \in 1..n |-> c]
 InnerLens == {63, 255, 256, 257}      \* around the 1->2 byte compact prefix and the u8 boundary
+BigInner == {n \in BigLens : n <= 1100}  \* inner sequences take the smallest big length only (evaluation cost is superlinear)
 S0 == <<>>  Sa == <<97>>  S64 == Rep(120, 64)  Se == <<195, 169>>  S4 == <<240, 159, 152, 128>>
 Strs == {S0, Sa, S64, Se, S4}
 OptStrs == {<<>>, <<S0>>, <<Sa>>, <<S64>>}
@@ -42,7 +43,7 @@ Defs == {[tag |-> "composite", fields |-> <<f>>] : f \in Fields}
    \cup {[tag |-> "variant", variants |-> <<Var(Sa, <<>>, 0, Rep(S0, n))>>] : n \in InnerLens}
    \cup {[tag |-> "composite", fields |-> <<Fld(<<Sa>>, Q(1), <<>>, Rep(Sa, n))>>] : n \in InnerLens}
    \cup {[tag |-> "composite", fields |-> <<Fld(<<Rep(97, n)>>, Q(1), <<Rep(98, n)>>, <<>>)>>] : n \in InnerLens}
-   \cup {[tag |-> "tuple", tys |-> Rep(Q(5), n)] : n \in InnerLens \cup BigLens}
+   \cup {[tag |-> "tuple", tys |-> Rep(Q(5), n)] : n \in InnerLens \cup BigInner}
    \cup {[tag |-> "sequence", ty |-> t] : t \in QIds}
    \cup {[tag |-> "array", len |-> n, ty |-> t] : n \in QIds, t \in {Q(0), QMAX, Q(64)}}
    \cup {[tag |-> "tuple", tys |-> ts] : ts \in {<<>>, <<Q(0)>>, <<Q(64), QMAX>>, Rep(Q(5), 64)}}
@@ -61,7 +62,7 @@ Regs ==    {<<Ty(Q(0), <<Sa>>, <<>>, d, <<>>)>> : d \in Defs}                   
       \cup {<<Ty(Q(0), <<>>, ps, D0, <<>>)>> : ps \in ParamSets}                                  \* parameters
       \cup {<<Ty(Q(0), <<>>, Rep(Prm(Sa, <<Q(1)>>), n), D0, <<>>)>> : n \in InnerLens}
       \cup {<<Ty(Q(0), Rep(Sa, n), <<>>, D0, <<>>)>> : n \in InnerLens}
-      \cup {<<Ty(Q(0), <<Rep(97, n)>>, <<>>, D0, Rep(S0, n))>> : n \in InnerLens \cup BigLens}
+      \cup {<<Ty(Q(0), <<Rep(97, n)>>, <<>>, D0, Rep(S0, n))>> : n \in InnerLens \cup BigInner}
       \cup {Rep(Ty(Q(1), <<>>, <<>>, D0, <<>>), n) : n \in BigLens \cup InnerLens}                              \* many entries (length classes, caps)
       \cup {<<>>, Rep(Ty(Q(7), <<>>, <<>>, D0, <<>>), 2), Rep(Ty(QMAX, <<Sa>>, <<>>, D0, <<Sa>>), 64),
             <<Ty(Q(1), <<>>, <<>>, D0, <<>>), Ty(Q(0), <<>>, <<>>, [tag |-> "sequence", ty |-> Q(1)], <<>>)>>}   \* vector lengths, non-dense
